@@ -18,7 +18,10 @@ RULE = (
     "reported rules must equal a sequential model of the calls' set semantics (a name is switched in every chain registering it); then a non-invasive "
     "observation: a probe document on which every enabled rule of every chain must be attempted is parsed under sys.monitoring "
     "PY_START and the first-call order of rule code objects per chain must equal get_active_rules(). Non-trivial = history with "
-    ">=1 mutator after a cache-warming getRules/parse; distinct by the operation sequence."
+    ">=1 mutator after a cache-warming getRules/parse; distinct by the operation sequence. (4) Duplicate built-in names: each built-in "
+    "block/inline/post-processing rule with a signature probe is registered a second time (before/after the first, built-in function), "
+    "toggled by name through ruler and facade (9 scripts x 3 presets); the rendering of the signature probe and of a combined document must "
+    "equal that of a duplicate-free instance set to exactly the reported active rules."
 )
 ASSUMPTIONS = [
     "model is permissive where the statement is silent: a raising call may be atomic or have the documented prefix effect; duplicate names may be first-match or all-match",
@@ -33,7 +36,8 @@ def floors(tier):
     return {"ruler.ops": 2000000 if q else 50000000, "ruler.raising_mutator_warm": 10000, "ruler.warm_mutations": 50000, "ruler.chains_compared": 1000000,
             "op.enable.raise": 1000, "op.disable.raise": 1000, "op.enableOnly.raise": 1000, "op.at.raise": 500, "op.before.raise": 500, "op.after.raise": 500,
             "ruler.duplicate_name_ops": 5000, "facade.histories": 30000 if q else 600000, "facade.rules_observed": 50000, "facade.raising_ops": 500,
-            "facade.reset_rules_exits": 500, "facade.plugin_rules": 500, "facade.model_checks": 100000, "facade.validation_mode_probes": 3000, "terminator.cases": 700, "facade.component_swaps": 500}
+            "facade.reset_rules_exits": 500, "facade.plugin_rules": 500, "facade.model_checks": 100000, "facade.validation_mode_probes": 3000, "terminator.cases": 700, "facade.component_swaps": 500,
+            "duplicate.cases": 900, "duplicate.discriminating_probes": 600, "duplicate.reported_inactive": 20}
 
 
 # ---- (1) sequential model -------------------------------------------------------------------------------------
@@ -645,9 +649,102 @@ def terminator_case(ctx, case):
         ctx.violation("terminator-chain-applied-ne-registered", f"rule with alt {alts}: blocks {order} in one document give {got}, each alone {want_toks} {sorted(want_refs)}", case)
 
 
+# ---- (4) a built-in name registered twice: what is applied follows what is reported, for every rule's own behaviour -------------------
+SIG = {
+    "block": {"table": "|a|b|\n|-|-|\n|c|d|\n", "code": "    x\n", "fence": "```\nx\n```\n", "blockquote": "> x\n", "hr": "***\n", "list": "- x\n",
+              "reference": "[a]: /u\n\n[a]\n", "html_block": "<div>\nx\n</div>\n", "heading": "# x\n", "lheading": "x\n===\n"},
+    "inline": {"newline": "a\nb", "escape": "\\*a", "backticks": "`x`", "strikethrough": "~~x~~", "emphasis": "*x*", "link": "[a](u)",
+               "image": "![a](u)", "autolink": "<http://a.b>", "html_inline": "<b>x", "entity": "&amp; &#35;"},
+    "inline2": {"emphasis": "*x*", "strikethrough": "~~x~~"},
+}
+DUP_COMBINED = "- i\n\n      c1\n\n> q\n>\n>     c2\n\n    c3\n\n***\n\n# h\n\n```\nf\n```\n\n*e* `b` [l](u) ~~s~~ &amp; \\* <http://a.b>\n"
+DUP_SCRIPTS = [
+    [("disable", "N")], [("disable", "N"), ("enable", "N")], [("parse",), ("disable", "N")], [("disable", "N"), ("parse",), ("enable", "N"), ("disable", "N")],
+    [("md.disable", "N")], [("md.disable", "N"), ("parse",), ("md.enable", "N")], [("enable", "N")], [],
+    [("md.disable", "N"), ("md.enable", "N"), ("disable", "N")],
+]
+
+
+def _builtin_fn(chain, name):
+    from markdown_it import parser_block, parser_inline
+    rules = {"block": parser_block._rules, "inline": parser_inline._rules, "inline2": parser_inline._rules2}[chain]
+    for r in rules:
+        if r[0] == name:
+            return r[1], ({"alt": list(r[2])} if len(r) > 2 else None)
+    raise KeyError(name)
+
+
+def duplicate_case(ctx, case):
+    """a second registration of a built-in name carrying the built-in function, next to the first; then toggles by that name.
+    Whatever the ruler reports as active afterwards must be what parsing applies: the rendering must equal that of a fresh
+    instance (no duplicates) whose chains were set to exactly the reported active names."""
+    from markdown_it import MarkdownIt
+    ctx.count("evaluations")
+    ctx.current = case
+    chain, name, how, preset = case["chain"], case["name"], case["how"], case["preset"]
+    md = MarkdownIt(preset, {"linkify": False, "html": True})
+
+    def ruler_of(m, ch):
+        return m.inline.ruler2 if ch == "inline2" else m[ch].ruler
+    r = ruler_of(md, chain)
+    if name not in r.get_all_rules():
+        return
+    fn, opts = _builtin_fn(chain, name)
+    args = (name, name, fn) + ((opts,) if opts else ())
+    getattr(r, how)(*args)
+    if r.get_all_rules().count(name) != 2:
+        ctx.violation("duplicate-name:registration-lost", f"{how}({name!r}, {name!r}, fn) on the {chain} ruler left {r.get_all_rules()}", case)
+        return
+    try:
+        for step in case["script"]:
+            if step[0] == "parse":
+                md.render(SIG[chain][name])
+            elif step[0].startswith("md."):
+                getattr(md, step[0][3:])(name)
+            else:
+                getattr(r, step[0])(name)
+    except Exception as e:
+        ctx.violation("duplicate-name:unexpected-exception", f"{type(e).__name__}: {e} in {case}", case)
+        return
+    rep = md.get_active_rules()
+    ref = MarkdownIt(preset, {"linkify": False, "html": True})
+    for ch in ("core", "block", "inline", "inline2"):
+        ruler_of(ref, ch).enableOnly(list(dict.fromkeys(rep[ch])))
+    off = MarkdownIt(preset, {"linkify": False, "html": True})
+    ruler_of(off, chain).disable(name)
+    ctx.count("duplicate.cases")
+    for src in (SIG[chain][name], DUP_COMBINED):
+        got, want = md.render(src), ref.render(src)
+        ctx.count("duplicate.renderings_compared")
+        if name in rep[chain]:
+            ctx.count("duplicate.reported_active")
+            if off.render(src) != want:
+                ctx.count("duplicate.discriminating_probes")
+                ctx.nontrivial("dup", chain, name, how, preset, repr(case["script"]), src)
+        else:
+            ctx.count("duplicate.reported_inactive")
+        if got != want:
+            ctx.violation("duplicate-name:applied-ne-reported", (f"{chain} ruler holds two rules named {name!r} (second registered with {how}, built-in function); after "
+                          f"{case['script']} it reports {name!r} {'active' if name in rep[chain] else 'inactive'}, but {src!r} renders {got!r} where an instance "
+                          f"set to exactly the reported rules renders {want!r}"), case)
+            return
+
+
+def duplicate_cases():
+    for chain, sigs in SIG.items():
+        for name in sigs:
+            for how in ("after", "before"):
+                for preset in ("commonmark", "js-default", "gfm-like"):
+                    for script in DUP_SCRIPTS:
+                        yield {"kind": "duplicate", "chain": chain, "name": name, "how": how, "preset": preset,
+                               "script": [[x if x != "N" else name for x in st] for st in script]}
+
+
 def replay(ctx, case):
     if case.get("kind") == "terminator":
         terminator_case(ctx, case)
+    elif case.get("kind") == "duplicate":
+        duplicate_case(ctx, case)
     else:
         check_case(ctx, case)
 
@@ -675,6 +772,9 @@ def run(ctx):
                         k += 1
                         if ctx.mine(k) and (not ctx.quick or m < 3 or k % 3 == 0):
                             terminator_case(ctx, {"kind": "terminator", "alts": list(alts), "order": list(order), "preset": preset})
+    for k, case in enumerate(duplicate_cases()):
+        if ctx.mine(k):
+            duplicate_case(ctx, case)
     for k in range(ctx.scale(160000, 4000000)):
         ops = gen_ruler_history(rng)
         warm_then_mut = any(o["op"] == "getRules" for o in ops)
